@@ -1,6 +1,6 @@
 (* C10 — one connection's misbehaviour never harms another connection. *)
 From Coq Require Import ZArith List Bool.
-From HP Require Import Bytes Sha1 Wire Broker BrokerSpec BrokerInv BrokerStep BrokerTrace BrokerLocal BrokerProps BrokerProps2 BrokerBenign BrokerBlame BrokerWellBehaved.
+From HP Require Import Bytes Sha1 Wire Broker BrokerSpec BrokerInv BrokerStep BrokerTrace BrokerLocal BrokerProps BrokerProps2 BrokerBenign BrokerBlame BrokerWellBehaved BrokerWellBehavedAsync.
 Import ListNotations.
 
 Section C10.
@@ -93,6 +93,16 @@ Theorem C10_well_behaved_never_closed : forall h q, wb_hist bname store q state0
   closing (conns (Broker.run bname store false h) q) = false /\
   (made (conns (Broker.run bname store false h) q) = true -> copen (conns (Broker.run bname store false h) q) = true).
 Proof. exact (well_behaved_never_closed bname store). Qed.
+
+(* the same with an ASYNCHRONOUS store.  wb_hist_a q s h: every event of h is not q's own, or q's connection being made,
+   or a read that starts with a well-formed OP_AUTH (whatever is behind it stays parked), or the verdict for q's oldest
+   pending OP_AUTH being the row whose secret the digest was made with while the parked requests are permitted under that
+   row, or a read of requests permitted under q's current identity (wb_plain: PUBLISH under the own identity on a
+   permitted channel, permitted SUBSCRIBE, any UNSUBSCRIBE). *)
+Theorem C10_well_behaved_never_closed_async : forall h q, wb_hist_a bname store q state0 h ->
+  closing (conns (Broker.run bname store true h) q) = false /\
+  (made (conns (Broker.run bname store true h) q) = true -> copen (conns (Broker.run bname store true h) q) = true).
+Proof. exact (well_behaved_never_closed_async bname store). Qed.
 End C10wb.
 
 Print Assumptions C10_frame_local.
@@ -107,3 +117,4 @@ Print Assumptions C10_others_cannot_touch.
 Print Assumptions C10_closing_blame.
 Print Assumptions C10_permitted_data.
 Print Assumptions C10_well_behaved_never_closed.
+Print Assumptions C10_well_behaved_never_closed_async.
